@@ -59,6 +59,8 @@ def c12(ctx, res):
     path_trace(ctx, res)
     cfg = "MC_C12_quick.cfg" if ctx.quick else "MC_C12_thorough.cfg"
     ctx.gen_replay(res, "newmap", "MC_C12.tla", cfg)
+    # sessions: key pairs are split at ':' whatever the field-separator register holds
+    ctx.gen_replay(res, "mxj", "Mxj.tla", "Mxj_newmap.cfg", procs=4)
     res.assumptions += ["content compared up to list order when an old path has a wildcard (map iteration order)",
                         "sharing of *values* between result and receiver is inherent to Go maps and not claimed absent; only modification by the NewMap call itself is checked"]
 
